@@ -273,7 +273,12 @@ pub fn analyse_session(case: &Case, out: &Outcome) -> Analysis {
                         let sent_after_best = sent_seq.get(&cmd_id).copied().unwrap_or(0) > last_best_seq && outstanding.is_none();
                         if cmd_errs.is_empty() {
                             gos[gi].accepted = true;
-                            outstanding = Some(gi);
+                            if gos[gi].n_best > 0 {
+                                // answered before the stdin loop was back at its read
+                                last_best_seq = last_best_seq.max(gos[gi].best_seq);
+                            } else {
+                                outstanding = Some(gi);
+                            }
                             cur = Cur::None;
                         } else {
                             let busy = cmd_errs.iter().any(|e| e.contains("search is still running"));
@@ -522,6 +527,10 @@ pub fn analyse_session(case: &Case, out: &Outcome) -> Analysis {
                 classify_panic(&mut a, msg, loc, cmd_id, e.th == 0);
             }
             EvK::Blocked { why } => {
+                if why == "stdin" {
+                    // the stdin loop is back at its read: the command it was processing is complete
+                    finalize!();
+                }
                 if cmd_tok == "isready" && cmd_readyok == 0 {
                     a.v("C14", "R4-isready", cmd_id, format!("main thread blocks on {} before answering `isready`", why));
                 } else if (cmd_tok == "quit" || eof_read) && !why.starts_with("stdin") {
@@ -689,7 +698,26 @@ pub fn analyse_session(case: &Case, out: &Outcome) -> Analysis {
         Verdict::Exit(Err(e)) => a.v("C14", "R1-panic", cmd_id, format!("engine main function returned the error `{}`", e)),
         Verdict::MainPanicked => a.v("C14", "R1-panic", cmd_id, "engine main thread panicked (process exit status 101)".into()),
         Verdict::Deadlock(d) => {
-            a.v("C14", "R2-deadlock", cmd_id, format!("no thread can run and no timer is pending: {}", d));
+            // a deadlock counts against the engine only if the engine owes something: the stdin loop is stuck on a
+            // lock or a join, or the GUI waits for an answer to a command the engine accepted (or never read).
+            // A GUI script that waits for a bestmove it never asked for is an artefact of the script.
+            let main_state = out.threads[0].final_state.as_str();
+            let gui_state = out.threads.get(1).map(|t| t.final_state.as_str()).unwrap_or("");
+            let owed_best = gos.iter().any(|g| g.accepted && g.n_best == 0);
+            let engine_fault = if main_state != "stdin" {
+                true
+            } else if gui_state.starts_with("gui-await-bestmove") {
+                owed_best
+            } else if gui_state.starts_with("gui-await-readyok") {
+                isready_sent > readyok_seen
+            } else {
+                true
+            };
+            if engine_fault {
+                a.v("C14", "R2-deadlock", cmd_id, format!("no thread can run and no timer is pending: {}", d));
+            } else {
+                a.inconclusive = true;
+            }
         }
         Verdict::StepLimit | Verdict::PollLimit => {
             a.inconclusive = !a.viols.iter().any(|v| v.rule.starts_with("R3") || v.rule.starts_with("R1-runs"));
@@ -738,12 +766,24 @@ pub fn analyse_direct(case: &Case, out: &Outcome) -> Analysis {
                             k = Some(idx);
                             let item = &case.items[idx];
                             let stop: Option<u64> = it.next().and_then(|s| s.strip_prefix("stop=")).and_then(|s| s.parse().ok());
+                            // the moves actually searched (table-guided items choose them at run time)
+                            let run_moves: Option<Vec<String>> = it.next().and_then(|s| s.strip_prefix("moves=")).map(|s| s.split(',').filter(|x| !x.is_empty()).map(|x| x.to_string()).collect());
                             a.cur_k = stop;
                             g = GoRec { cmd: idx as u32, line: format!("item {}: {} moves [{}] depth {:?} stop_at {:?}", idx, item.root, item.moves.join(" "), item.depth, stop), accepted: true, read_t: e.t, read_tp: e.tp, ..Default::default() };
                             g.movetime = stop; // (re-used as the chosen stop index in direct mode)
+                            let moves_used: Vec<String> = run_moves.unwrap_or_else(|| item.moves.clone());
+                            g.line = format!("item {}: {} moves [{}] depth {:?} stop_at {:?}", idx, item.root, moves_used.join(" "), item.depth, stop);
                             let mut p = crate::gui::root_pos(&item.root);
+                            if item.descend.is_some() && idx > 0 {
+                                // the root string of a descending item is inherited from the item before it
+                                let mut j = idx;
+                                while j > 0 && case.items[j].descend.is_some() {
+                                    j -= 1;
+                                }
+                                p = crate::gui::root_pos(&case.items[j].root);
+                            }
                             if let Some(pp) = p.as_mut() {
-                                for m in &item.moves {
+                                for m in &moves_used {
                                     if !pp.play(m) {
                                         p = None;
                                         break;
